@@ -343,6 +343,12 @@ impl World {
 
     /// start a helper process (gives a real pid / exe path / command line); killed on drop
     pub fn spawn_proc(&self, exe_path: &str, args: &[&str], uid: Option<u32>) -> u32 {
+        let a: Vec<&std::ffi::OsStr> = args.iter().map(std::ffi::OsStr::new).collect();
+        self.spawn_proc_os(std::ffi::OsStr::new(exe_path), &a, uid)
+    }
+
+    /// like `spawn_proc`, with arbitrary bytes (not necessarily UTF-8) in the executable path and the arguments
+    pub fn spawn_proc_os(&self, exe_path: &std::ffi::OsStr, args: &[&std::ffi::OsStr], uid: Option<u32>) -> u32 {
         use std::os::unix::process::CommandExt;
         let p = std::path::Path::new(exe_path);
         if !p.exists() {
@@ -356,7 +362,7 @@ impl World {
         if let Some(u) = uid {
             cmd.uid(u);
         }
-        let child = cmd.spawn().unwrap_or_else(|e| panic!("spawn {exe_path}: {e}"));
+        let child = cmd.spawn().unwrap_or_else(|e| panic!("spawn {}: {e}", exe_path.to_string_lossy()));
         let pid = child.id();
         self.children.lock().unwrap().push(child);
         pid
